@@ -683,6 +683,8 @@ class MementoFunctionHashRule(HashRule):
             return hashlib.sha256(
                 self.memento_fn.explicit_version.encode("utf-8")
             ).hexdigest()[0:16]
+        # The values of default parameters are part of the code hash: they may have changed
+        self.memento_fn.refresh_code_hash()
         return self.memento_fn.code_hash
 
     def did_change(self) -> bool:
